@@ -63,20 +63,20 @@ def handle (j : Json) : IO Unit := do
     let wgot : Target := { scheme := jstr (jget w "scheme"), host := jstr (jget w "host"), path := bytesOf (jget w "path_hex"), query := (jstr (jget w "rawquery")).toList }
     let werr := jstr (jget w "err")
     let agree := pan == "" && got == want && jstr (jget impl "fragment") == "" && werr == "" &&
-      wgot == { want with path := rendered want.path, query := wireQuery activeQuery q } && jstr (jget w "req_host") == ep.host
+      wgot == { want with path := rendered want.path, query := wireQuery .pinned q } && jstr (jget w "req_host") == ep.host
     -- the property, on what the implementation produced (the URL object and what the engines put on the wire)
     let hostOk := hostFixed ep got && (werr != "" || hostFixed ep wgot)
     let qOk := queryVerbatim q got
-    let wqOk := werr != "" || wgot.query == q
+    -- (`wire` is the harness's own url.Parse(targetURL.String()); the engines' handling of the query is judged in the stack cases)
     let tp := targetPath p1 pp
     let contOk := if usesPreserve ep && plainBase ep.basePath then underBase ep.basePath got.path && (werr != "" || underBase ep.basePath wgot.path) else true
     let rootOk := if !usesPreserve ep then notAboveRoot got.path && (werr != "" || notAboveRoot wgot.path) else true
     let placedOk := if plainPath tp && (!usesPreserve ep || plainBase ep.basePath) then
         placed (if usesPreserve ep then ep.basePath else []) tp got.path && (werr != "" || placed (if usesPreserve ep then ep.basePath else []) tp wgot.path) else true
-    let spec := pan == "" && hostOk && qOk && wqOk && contOk && rootOk && placedOk
+    let spec := pan == "" && hostOk && qOk && contOk && rootOk && placedOk
     let sig := if pan != "" then "buildtargeturl-panic" else if !hostOk then "target-host-changed" else if !qOk then "query-not-verbatim"
       else if !contOk then "preserve-path-escape" else if !rootOk then "dotdot-forwarded" else if !placedOk then "path-not-remaining-path"
-      else if !wqOk then "query-fragment-truncated" else ""
+      else ""
     let note := if spec then "" else
       s!"request path {show' p1} query {String.ofList q} endpoint {ep.scheme}://{ep.host}{show' ep.basePath} preserve={ep.preserve} => {got.scheme}://{got.host}{show' got.path}?{String.ofList got.query}; on the wire {show' wgot.path}?{String.ofList wgot.query}"
     emit case agree spec s!"build.{epClass ep}.{pathClass tp}" sig note
